@@ -64,7 +64,7 @@ CLAIMED = {
     "C13": {
         "engine": "vec",
         "technique": "Coq proof (refinement of a bitwise buffer model of Vec/RawVec to list semantics) + differential execution against std::vec::Vec and against the extracted model",
-        "text": "C13_push/pop/insert/remove/swap_remove/truncate/cap_ge_len/reserve_post/drain_filter_partition/extend_copy/extend_iter/extend_hint_irrelevant/split_off/drain/resize_grow/resize_shrink/splice/splice_hints_irrelevant/dedup_by/into_iter/clone are proved; C13_source_insert / C13_source_index_checks / C13_source_remove / C13_source_split_off / C13_source_frames / C13_source_drain_drop (Drain::drop's tail move and new length) / C13_source_push_pop_append / C13_source_drain_bounds / C13_source_drain_checks tie the index checks, memmove arguments, new lengths and range resolution of the source text to the model; for all arguments (out-of-range included) of the Vec model; every generated program (26 operation kinds, boundary indices, all range forms, scripted callbacks, neighbours and canaries in the same arena) is run on bumpalo's Vec, on std's Vec (the oracle the property names) and through the extracted model, debug and release. Every history also runs a zero-sized-element section against std, and the scripted iterators lie about their size_hint. Partial: conversions and zero-sized element types are decided by the differential only. C13_into_slice (into_bump_slice(_mut) / into_boxed_slice hand out exactly the contents and drop nothing; stepped by the checker) / C13_source_drain_filter_drop / C13_source_splice (the gap Drain::fill writes into; what Drain::move_tail reserves and moves); pinned: Splice::drop's sequence of steps, fill's loop, IntoIter's construction, next, next_back and destructor, DrainFilter::next and its destructor, retain, drain_filter's constructor, dedup_by and its partition loop, the three into_* conversions.",
+        "text": "C13_push/pop/insert/remove/swap_remove/truncate/cap_ge_len/reserve_post/drain_filter_partition/extend_copy/extend_iter/extend_hint_irrelevant/split_off/drain/resize_grow/resize_shrink/splice/splice_hints_irrelevant/dedup_by/into_iter/clone are proved; C13_source_insert / C13_source_index_checks / C13_source_remove / C13_source_split_off / C13_source_frames / C13_source_drain_drop (Drain::drop's tail move and new length) / C13_source_push_pop_append / C13_source_drain_bounds / C13_source_drain_checks tie the index checks, memmove arguments, new lengths and range resolution of the source text to the model; for all arguments (out-of-range included) of the Vec model; every generated program (26 operation kinds, boundary indices, all range forms, scripted callbacks, neighbours and canaries in the same arena) is run on bumpalo's Vec, on std's Vec (the oracle the property names) and through the extracted model, debug and release. Every history also runs a zero-sized-element section against std, and the scripted iterators lie about their size_hint. Partial: conversions and zero-sized element types are decided by the differential only. C13_into_slice (into_bump_slice(_mut) / into_boxed_slice hand out exactly the contents and drop nothing; stepped by the checker) / C13_source_drain_filter_drop / C13_source_splice (the gap Drain::fill writes into; what Drain::move_tail reserves and moves); pinned: Splice::drop's sequence of steps, fill's loop, IntoIter's construction, next, next_back and destructor, DrainFilter::next and its destructor, retain, drain_filter's constructor, dedup_by and its partition loop, the three into_* conversions. C13_source_dedup_loop / C13_source_dedup_loop_is_the_model (the while loop of partition_dedup_by, translated from vec.rs into a statement language on every run, with the caller's closure answered by a script: for every slice length and every script, panics included, it asks, swaps and counts exactly as the model's dedup_loop).",
         "design_ref": "DESIGN.md §6 C13",
     },
     "C14": {
